@@ -4,7 +4,7 @@ import json, os, subprocess
 
 VERIF = os.path.dirname(os.path.dirname(os.path.abspath(__file__)))
 
-HOOK_COMMITS = ["b2d3fbf"]
+HOOK_COMMITS = ["b2d3fbf", "041d87c", "4c251be"]
 
 CLAIMED = {
     "C03": dict(
